@@ -26,6 +26,9 @@ class PathGen(Gen):
         self.extra_defs = ""      # generated wrapper definitions around hand models (constants regenerated from the source)
 
     def trace(self, name, inputs, fn, **kw):
+        # a function that can no longer be executed on symbols must not abort the whole check: the failure is recorded
+        # (run() reports gen:trace:<name>), the theorems about that trace stop compiling, and the oracle still runs
+        kw['optional'] = True
         t = super().trace(name, inputs, fn, **kw)
         if t is not None and ' O' not in t.term:
             # a definition that does no arithmetic would not be abstracted over the section variable O
@@ -45,6 +48,8 @@ class PathGen(Gen):
             path = list(concolic.PATH)
             concolic.PATH.clear()
             concolic.VAL.clear()
+        if t is None:
+            return None
         atoms, seen = [], set()
         for rel, truth in path:
             a = rel_atom(rel, truth)
@@ -1001,6 +1006,9 @@ def run(ctx):
     with ctx.timed('regenerate'):
         g = build(ctx)
         path = ctx.write_gen(MOD + '.v', g.coq_text())
+    for name, why in g.failed:
+        ctx.fail(f'gen:trace:{name}', f"{name}: the library code can no longer be executed on symbols ({why[:300]}); the theorems about this trace are not shown",
+                 {'trace': name, 'error': why}, no_input=True)
     rc, out, err, dt = ctx.coqc(path)
     if rc != 0:
         ctx.fail('gen:compile', 'generated traces do not compile: ' + err[-800:], no_input=True)
